@@ -22,7 +22,7 @@ XI = "http://www.w3.org/2001/XInclude"
 
 
 class E:
-    __slots__ = ("ns", "local", "attrs", "items", "qname_text", "pad_ok", "qname_attrs", "pad_attrs", "_orig_scope")
+    __slots__ = ("ns", "local", "attrs", "items", "qname_text", "pad_ok", "qname_attrs", "pad_attrs", "_orig_scope", "info")
 
     def __init__(self, ns, local):
         self.ns = ns
@@ -34,6 +34,7 @@ class E:
         self.qname_attrs = {}  # (ns, local) -> [(uri, local), ...]
         self.pad_attrs = set()
         self._orig_scope = None
+        self.info = {}  # free-form marks from the reference model (cls, declared leaf types, ...)
 
 
 def split(tag):
@@ -78,8 +79,13 @@ def mark_leaves(e: E, exp, nsmap_stack=None):
     kids = [x for x in e.items if isinstance(x, E)]
     ekids = [x for x in exp.content if isinstance(x, ir.XEl)]
     leaves = [x for x in exp.content if isinstance(x, ir.XLeaf)]
+    e.info["cls"] = exp.cls
+    e.info["nil"] = exp.nil
+    e.info["attr_types"] = {}
     if leaves and not kids and len(exp.content) == 1:
         leaf = leaves[0]
+        e.info["leaf_types"] = [(t.kind, t.name) for t in leaf.types]
+        e.info["leaf_any"] = leaf.any_type
         tn = {type(v).__name__ for v in (leaf.value if leaf.tokens else [leaf.value])}
         vals = leaf.value if leaf.tokens else [leaf.value]
         import enum
@@ -96,6 +102,7 @@ def mark_leaves(e: E, exp, nsmap_stack=None):
         if isinstance(want, ir.XLeaf):
             import enum
 
+            e.info["attr_types"][(ans, al)] = [(t.kind, t.name) for t in want.types]
             vals = want.value if want.tokens else [want.value]
             vals = [x.value if isinstance(x, enum.Enum) else x for x in vals]
             tn = {type(x).__name__ for x in vals}
@@ -157,6 +164,14 @@ def esc_text(s, o: Opts, ascii_only=False, latin1=False):
         else:
             out.append(ch)
     return "".join(out)
+
+
+def plain_opts(rng):
+    """Emitter options with every rewrite switched off (used when only the DOM was edited)."""
+    o = Opts(rng)
+    for k in ("rename", "use_default", "shadow", "redeclare", "permute_attrs", "ws", "comments", "pis", "pi_in_chardata", "cdata", "charrefs", "pad", "misc_around_root", "single_quotes"):
+        setattr(o, k, False)
+    return o
 
 
 class NoCdata:
@@ -221,6 +236,8 @@ def emit(e: E, o: Opts, scope, ascii_only, latin1, top=False):
     # namespaces needed by QName-valued content / attributes are resolved through qualified forms below
     inv = {}
 
+    used_here = set()  # prefixes this element's own name/attributes/values rely on: never rebound here
+
     def prefix_for(uri, attr=False, for_value=False):
         """Find or declare a prefix for uri in the current scope (None uri = no namespace)."""
         if uri is None:
@@ -228,6 +245,8 @@ def emit(e: E, o: Opts, scope, ascii_only, latin1, top=False):
                 scope[None] = None
                 decls.append((None, ""))
                 o.applied.add("undeclare-default")
+            if not attr:
+                used_here.add(None)
             return None
         if uri == xmlkit.XMLNS:
             return "xml"
@@ -236,21 +255,31 @@ def emit(e: E, o: Opts, scope, ascii_only, latin1, top=False):
             if o.shadow and rng.random() < 0.15:
                 pass
             else:
-                return rng.choice(cands) if o.rename else cands[0]
+                p = rng.choice(cands) if o.rename else cands[0]
+                used_here.add(p)
+                return p
         # declare a new one
-        if not attr and o.use_default and rng.random() < 0.5 and None not in [d[0] for d in decls] and not _unqualified_needed(e):
+        declared = [d[0] for d in decls]
+        if not attr and o.use_default and rng.random() < 0.5 and None not in declared and None not in used_here and not _unqualified_needed(e):
             scope[None] = uri
             decls.append((None, uri))
             o.applied.add("default-namespace")
+            used_here.add(None)
             return None
-        pool = [p for p in PREFIX_POOL if p not in [d[0] for d in decls]]
+        pool = [p for p in PREFIX_POOL if p not in declared and p not in used_here and (p not in scope or scope[p] == uri or o.shadow)]
         if ascii_only or latin1:
             pool = [p for p in pool if p.isascii()]
+        if not pool:
+            n = 0
+            while f"g{n}" in scope or f"g{n}" in declared:
+                n += 1
+            pool = [f"g{n}"]
         p = rng.choice(pool)
         if p in scope and scope[p] != uri:
             o.applied.add("prefix-shadowing")
         scope[p] = uri
         decls.append((p, uri))
+        used_here.add(p)
         o.applied.add("prefix-renamed")
         return p
 
